@@ -236,7 +236,10 @@ class Go(Lang):
             rest = ops[done:done + 1] if restarts <= MAX_RESTARTS else ops[done:]
             for op in rest:
                 ev = {"ev": op["op"], "id": op["id"], "ok": False, "cls": "crash", "err": err}
-                if op["op"] != "enc":
+                if op["op"] == "encinto":
+                    ev["pre"] = len(op.get("pre", []))
+                    ev["rd"] = int(op.get("rd", 0))
+                elif op["op"] != "enc":
                     ev["tail"] = len(op.get("tail", []))
                 events.append(ev)
             skip = done + len(rest)
@@ -277,9 +280,13 @@ class Go(Lang):
             # emitted code builds, the driver does not: the emitted types lack what the program declares
             res["build"]["log"] = ""
             for op in case["ops"]:
-                if op["op"] == "enc":
-                    res["events"].append({"ev": "enc", "id": op["id"], "ok": False, "cls": "member-missing",
-                                          "err": "driver does not build: " + log[-600:]})
+                if op["op"] in ("enc", "encinto"):
+                    ev = {"ev": op["op"], "id": op["id"], "ok": False, "cls": "member-missing",
+                          "err": "driver does not build: " + log[-600:]}
+                    if op["op"] == "encinto":
+                        ev["pre"] = len(op.get("pre", []))
+                        ev["rd"] = int(op.get("rd", 0))
+                    res["events"].append(ev)
             return res
         cp = os.path.join(scratch, "case_go.json")
         write(cp, json.dumps(case))
